@@ -1,6 +1,6 @@
 (* C05 -- p-value, observed statistic and returned distribution are mutually consistent.
    Statements only; proofs in Proofs/CoreProofs.v. *)
-From PV Require Import Lib.Base Model.Prng Model.Core Model.NoDist Model.Stratified Proofs.CoreProofs Proofs.NoDistProofs.
+From PV Require Import Lib.Base Model.Prng Model.Core Model.NoDist Model.NoDistStrat Model.Stratified Proofs.CoreProofs Proofs.NoDistProofs Proofs.NoDistStratProofs.
 Open Scope Q_scope.
 
 (* core.py's table pUp + plus1/(reps+plus1) ... is the textbook (H+c)/(reps+c); two-sided doubles and caps *)
@@ -43,6 +43,24 @@ Theorem C05_keep_dist_false_path_agrees : forall s pot nx a reps plus1 t x y s1,
     match one_sample x y s1 a reps plus1 t with Ok r => Ok (pval r, tstat r, rest r) | Err e => Err e end.
 Proof. intros. split; [apply two_sample_core_nodist_eq|apply one_sample_nodist_eq]. Qed.
 Print Assumptions C05_keep_dist_false_path_agrees.
+
+(* the same for k_sample, bivariate_k_sample, stratified_two_sample (Model/NoDistStrat.v): the counter loops return the
+   p-value, statistic and generator state of the keep_dist=True paths; and the counter along simulate_ts_dist's chain of
+   row permutations is the tail count of the stored distribution *)
+Theorem C05_keep_dist_false_path_agrees_ksample_stratified : forall x g sk reps plus1 t g1 g2 c resp ord sv a,
+  k_sample_nodist x g sk reps plus1 t =
+    match k_sample x g sk reps plus1 t with Ok (p, tst, _, _, t') => Ok (p, tst, t') | Err e => Err e end /\
+  bivariate_k_sample_nodist x g1 g2 reps plus1 t =
+    match bivariate_k_sample x g1 g2 reps plus1 t with Ok (p, tst, _, _, t') => Ok (p, tst, t') | Err e => Err e end /\
+  s2s_callable_nodist g c resp ord sv a reps plus1 t =
+    match s2s_callable g c resp ord sv a reps plus1 t with Ok (p, tst, _, _, t') => Ok (p, tst, t') | Err e => Err e end.
+Proof. intros. split; [apply k_sample_nodist_eq|split; [apply bivariate_k_sample_nodist_eq|apply s2s_callable_nodist_eq]]. Qed.
+Print Assumptions C05_keep_dist_false_path_agrees_ksample_stratified.
+Theorem C05_simulate_ts_counter_is_tail_count : forall (f : list (list Z) -> Q) tst reps m t,
+  rows_hits f m reps t tst =
+    match rows_chain m reps t with Ok r => Ok (count_ge tst (map f (fst r)), snd r) | Err e => Err e end.
+Proof. intros. apply rows_hits_eq. Qed.
+Print Assumptions C05_simulate_ts_counter_is_tail_count.
 
 (* c/(reps+c) <= p <= 1: never 0 with plus1 on; in [0,1] otherwise *)
 Theorem C05_pvalue_bounds : forall a c tst d, (0 < length d + c)%nat ->
